@@ -40,6 +40,16 @@ func init() {
 				add(c11In{K: "cast", Doc: d})
 			}
 			c11Retrieval(tier, r, docs, add)
+			for _, kind := range []string{"kgroups", "compact"} {
+				kw := func(inc bool, s string) eExpr { return eExpr{F: 1, Inc: inc, V: tvStr(s)} }
+				for _, docs := range [][]eDoc{
+					{{ID: -5, Cons: []eConj{{kw(true, "kw")}}}, {ID: 7, Cons: []eConj{{kw(true, "kw")}}}, {ID: -9, Cons: []eConj{{kw(true, "kw")}}}},
+					{{ID: 1, Cons: []eConj{{{F: 0, Inc: true, V: tvStr("nowhere")}}, {kw(true, "kw")}}}, {ID: 2, Cons: []eConj{{kw(true, "kw")}}}},
+				} { // BuildIndex after the first document, then documents with KNOWN keywords, then BuildIndex again (no Reset)
+					add(eCase{Kind: kind, Policy: "error", Configs: map[int]string{1: "ac_matcher"}, Docs: docs, Rebuild: 1,
+						Queries: []eQuery{{A: []eAssign{{F: 1, V: tvStr("a kw b")}}}, {A: []eAssign{{F: 1, V: tvStr("none")}}}, {}}})
+				}
+			}
 			rangeSplitCases(add) // ids (negative ones, several conjunction positions) through the range container's split pieces
 			n := 3000
 			if tier == "thorough" {
